@@ -85,6 +85,10 @@ def extract_one(tu, extra_flags=()):
     os.makedirs(CACHE, exist_ok=True)
     out = os.path.join(CACHE, name)
     if os.path.exists(out) and os.path.getsize(out) > 0:
+        try:
+            os.utime(out)
+        except OSError:
+            pass
         return out
     tmp = out + ".tmp.%d" % os.getpid()
     cmd = ["clang++", "-std=gnu++17", "-I" + os.path.join(REPO, "include"), "-UNDEBUG", "-fsyntax-only",
@@ -106,8 +110,13 @@ def prune_cache(keep=120):
         files = sorted((os.path.join(CACHE, f) for f in os.listdir(CACHE)), key=os.path.getmtime)
     except FileNotFoundError:
         return
+    now = time.time()
     for f in files[:-keep]:
         try:
+            # a concurrently running check may be about to read a file it has just been handed: never remove
+            # anything younger than half an hour
+            if now - os.path.getmtime(f) < 1800:
+                continue
             os.remove(f)
         except OSError:
             pass
